@@ -180,6 +180,43 @@ class Hung(Exception):
     pass
 
 
+def blocked_state(proc):
+    """What the kernel says a silent server is doing: {'alive', 'state', 'wchan', 'syscall', 'fd1', 'fd2',
+    'blocked_on_pipe_write'}.  blocked_on_pipe_write = the process is alive, sleeping inside a
+    write to a pipe (its own stdout/stderr), i.e. it is not slow, it waits for a reader."""
+    info = {'alive': False, 'blocked_on_pipe_write': False}
+    if proc is None or proc.poll() is not None:
+        return info
+    info['alive'] = True
+    d = '/proc/%d/' % proc.pid
+    for key in ('wchan', 'syscall'):
+        try:
+            with open(d + key) as f:
+                info[key] = f.read().strip()[:200]
+        except OSError:
+            info[key] = ''
+    try:
+        with open(d + 'stat') as f:
+            info['state'] = f.read().rsplit(')', 1)[1].split()[0]
+    except (OSError, IndexError):
+        info['state'] = '?'
+    for fd in (1, 2):
+        try:
+            info['fd%d' % fd] = os.readlink(d + 'fd/%d' % fd)
+        except OSError:
+            info['fd%d' % fd] = ''
+    in_pipe_write = 'pipe_write' in info['wchan']
+    sc = info['syscall'].split()
+    if not in_pipe_write and len(sc) >= 2 and sc[0] == '1' and os.uname().machine == 'x86_64':
+        try:
+            in_pipe_write = info.get('fd%d' % int(sc[1], 16), '').startswith('pipe:')
+        except ValueError:
+            pass
+    info['blocked_on_pipe_write'] = bool(in_pipe_write and info['state'] in ('S', 'D')
+                                         and (info['fd1'].startswith('pipe:') or info['fd2'].startswith('pipe:')))
+    return info
+
+
 class Session(object):
     """One real supp.remote.Environment + its server child.  Every call is bracketed by a
     call/return log entry and by counters on the client's dumps/loads (the wire boundary)."""
@@ -192,6 +229,7 @@ class Session(object):
         self.sent = []
         self.received = []
         self.hung = False
+        self.hang_info = None
         self.pid = None
         self._orig = (remote.dumps, remote.loads)
         sent, received, od, ol = self.sent, self.received, remote.dumps, remote.loads
@@ -208,6 +246,7 @@ class Session(object):
 
     def _fire(self):
         self.hung = True
+        self.hang_info = blocked_state(getattr(self.env, 'proc', None))
         try:
             self.env.proc.kill()
         except Exception:
@@ -399,16 +438,26 @@ class Mirror(object):
         if name in NEVER_SEND:
             raise AssertionError('not sent through the server class: %r' % (name,))
         if name == 'configure':
-            # ill-formed configure: whatever the real method does to its project, the mirror shares
+            # wrong-arity configure (the message names Server.configure): a configure that raises
+            # changes nothing - the session project stays that of the last successful configure
             try:
-                return self.srv.configure(*args, **kwargs)
-            finally:
-                self.project = getattr(self.srv, 'project', None)
+                r = self.srv.configure(*args, **kwargs)
+            except Exception:
+                if self.project is None:
+                    self.srv.__dict__.pop('project', None)
+                else:
+                    self.srv.project = self.project
+                raise
+            self.project = getattr(self.srv, 'project', None)
+            return r
         return getattr(self.srv, name)(*args, **kwargs)
 
     def do_configure(self, config):
-        self.project = self.Project(config['sources'], dyn_modules=config.get('dyn_modules'))
-        self.srv.project = self.project
+        # what a configure request means: a new Project(sources, dyn_modules); if that raises, the
+        # session keeps the project of the last successful configure
+        project = self.Project(config['sources'], dyn_modules=config.get('dyn_modules'))
+        self.project = project
+        self.srv.project = project
         return None
 
     def do_assist(self, source, position, filename):
